@@ -126,6 +126,12 @@ class C19(core.Check):
             if explicit:
                 ex = {f'p{q}': r.randint(-5, 5) for q in range(r.randint(1, 3))}
             cases.append((ex, routes))
+        # values that are exactly zero (falsy) must win over non-zero defaults: explicit zeros, and genes decoding to 0
+        z_int = {'name': 'p0', 'type': int, 'min': -10, 'max': 10, 'default': 7}
+        z_flt = {'name': 'p1', 'type': float, 'min': 0.0, 'max': 1.0, 'default': 0.5}
+        cases.append(({'p0': 0, 'p1': 0.0}, [([dict(z_int), dict(z_flt)], [])]))
+        cases.append((None, [([dict(z_int), dict(z_flt)], [79, 40])]))          # 'O' -> round(-0.13) = 0, '(' -> 0.0
+        cases.append((None, [([dict(z_int), dict(z_flt)], [80, 40]), ([dict(z_int)], [])]))
         return cases
 
     def precedence_line(self, case):
